@@ -408,6 +408,10 @@ class MinFlowDecomp(pathmodel.AbstractPathModelDAG): # Note that we inherit from
     def _get_lowerbound_with_min_gen_set(self) -> int:
 
         min_gen_set_start_time = time.perf_counter()
+        # If some ignored edge carries a flow value, the path weights need not explain it, 
+        # and the flow out of the sources need not be the sum of the path weights: the bound is not valid
+        if any(self.flow_attr in self.G.edges[e] for e in self.edges_to_ignore if e in self.G.edges):
+            return None
         all_weights = list(set({self.G.edges[e][self.flow_attr] for e in self.G.edges() if self.flow_attr in self.G.edges[e]}))
         # Get the source_flow as the sum of the flow values on all the edges exiting the source nodes
         # (i.e., nodes with in-degree 0)
